@@ -5,13 +5,14 @@
    srv/SrvC08b.v (stop once, status, WaitStatus after the handlers), srv/SrvC08c.v (cancellation, retained
    notifications, restart), srv/SrvC08q.v (quiescence, termination), srv/SrvC08u.v (unblocking channels), srv/SrvC08r.v (drained notifications),
    srv/SrvC08x.v (scenarios), srv/SrvC08y.v (the flags of ServerStatus) srv/SrvC08n.v (notifications handled)
-   srv/SrvC08w.v (callback watchers) and srv/SrvC08v.v (restart after WaitStatus).
+   srv/SrvC08w.v (callback watchers), srv/SrvC08v.v (restart after WaitStatus)
+   and srv/SrvC08m.v (no livelock: a measure every release window decreases).
    All statements quantify over ALL configurations, ALL reachable states (reach = window boundaries, reachf =
    every intermediate state too) and ALL traces; there are no bounds.
    OWaitRet carries an [option stopcause]: "at most one flag" holds by type. *)
 From Coq Require Import List NArith ZArith Bool Arith Lia.
 From RecordUpdate Require Import RecordUpdate.
-From JV Require Import Bytes Msg SrvModel SrvLemmas SrvBasics SrvC10 SrvC08 SrvC08b SrvC08c SrvC08q SrvC08r SrvC08s SrvC08u SrvC08y SrvC08n SrvC08w SrvC08v.
+From JV Require Import Bytes Msg SrvModel SrvLemmas SrvBasics SrvC10 SrvC08 SrvC08b SrvC08c SrvC08q SrvC08r SrvC08s SrvC08u SrvC08y SrvC08n SrvC08w SrvC08v SrvC08m.
 Import ListNotations.
 
 (** 1. No interleaving makes the process panic: none of the model's crash outcomes (CrNilChannel = deliver
@@ -343,6 +344,75 @@ Theorem c08_terminates_unblock : forall c s, reach c s -> quiescent s = true -> 
   wg s = 0 /\ waits s = 0 /\ all_done s.
 Proof. exact terminates_unblock. Qed.
 Print Assumptions c08_terminates_unblock.
+
+(* no livelock: [mu_rel] is a measure of the state (scheduling points the parked goroutines may still pass, records
+   the reader may still consume, with what each may spawn) that EVERY window of a release label strictly decreases,
+   from every reachable state, whatever the configuration; so every sequence of release labels (no action of the
+   environment in between) from a reachable state s has at most [mu_rel s] members ... *)
+Theorem c08_rel_step_decreases : forall c s l s' os, reach c s -> is_rel l = true -> step s l = Some (s', os) ->
+  mu_rel s' < mu_rel s.
+Proof. exact rel_step_decreases. Qed.
+Print Assumptions c08_rel_step_decreases.
+
+Theorem c08_rel_bounded : forall c tr s s' oss, reach c s -> Forall (fun l => is_rel l = true) tr ->
+  run s tr = Some (s', oss) -> length tr + mu_rel s' <= mu_rel s.
+Proof. exact rel_bounded. Qed.
+Print Assumptions c08_rel_bounded.
+
+(* ... so under any scheduler that keeps releasing some enabled goroutine a quiescent state is reached within
+   mu_rel s windows: 'at quiescence' in c08_terminates means 'eventually' *)
+Theorem c08_rel_eventually_quiescent : forall c s, reach c s ->
+  forall n, mu_rel s <= n -> forall pick : state -> label,
+    (forall x, quiescent x = false -> In (pick x) (enabled_rel x)) ->
+    exists tr s' oss, run s tr = Some (s', oss) /\ Forall (fun l => is_rel l = true) tr /\ quiescent s' = true /\
+      length tr <= mu_rel s.
+Proof. exact rel_eventually_quiescent. Qed.
+Print Assumptions c08_rel_eventually_quiescent.
+
+Theorem c08_eventually_terminates : forall c s, reach c s -> forall pick : state -> label,
+  (forall x, quiescent x = false -> In (pick x) (enabled_rel x)) ->
+  exists tr s' oss, run s tr = Some (s', oss) /\ Forall (fun l => is_rel l = true) tr /\ length tr <= mu_rel s /\
+    quiescent s' = true /\
+    (running s' = false -> (rd s' = RExited \/ rd s' = RNone) ->
+     (forall k t, nth_error (tasks s') k = Some t -> t_st t <> TRunning) -> 0 < cf_K c ->
+     wg s' = 0 /\ waits s' = 0 /\ all_done s').
+Proof. exact eventually_terminates. Qed.
+Print Assumptions c08_eventually_terminates.
+
+(* the measure and the release labels, spelled out; every label [enabled_rel] offers is a release label *)
+Theorem c08_mu_rel_spec : forall s, mu_rel s =
+  wsum tw (tasks s) +
+  (rdw (rd s) + wsum fw (ch_in s) + dpw (dp s) + wsum ew (inq s) + wsum uw (units s) + wsum cw (cbs s) +
+   wsum ow (ops s) + (if running s then 2 else 0)).
+Proof. exact mu_rel_spec. Qed.
+Print Assumptions c08_mu_rel_spec.
+
+Theorem c08_weights_spec :
+  (forall t, tw t = match t_st t with TAtAcquire => 2 | TWaiting | TRunning | TAtHandled _ => 1 | TDone _ | TSkip => 0 end) /\
+  (forall u, uw u = match u_st u with UFinished => 0 | _ => 1 end) /\
+  (forall c, cw c = match cb_watch c with WDone => 0 | _ => 1 end) /\
+  (forall o, ow o = match o with OpPush _ _ _ _ => 2 | _ => 1 end) /\
+  (forall bm, ew bm = 5 * Nat.max 1 (length (snd bm))) /\
+  (forall f, fw f = match f with
+                    | FMsg (InMsgs _ ms) | FMsgEOF (InMsgs _ ms) => 1 + 5 * Nat.max 1 (length ms)
+                    | _ => 1
+                    end) /\
+  (forall r, rdw r = match r with RHold f => fw f | _ => 0 end) /\
+  (forall d, dpw d = match d with DAtNext => 1 | DAtBarrier _ => 2 | DBarrierWait _ => 1 | _ => 0 end) /\
+  (forall A (w : A -> nat) x r, wsum w (x :: r) = w x + wsum w r) /\ (forall A (w : A -> nat), wsum w [] = 0).
+Proof. exact weights_spec. Qed.
+Print Assumptions c08_weights_spec.
+
+Theorem c08_is_rel_spec : forall l, is_rel l = true <->
+  l = LRelRead \/ l = LRelNext \/ l = LRelBarrier \/ (exists k, l = LRelAcquire k) \/ (exists k, l = LRelHandled k) \/
+  (exists u, l = LRelDeliver u) \/ (exists n, l = LRelStop n) \/ (exists n, l = LRelCancel n) \/
+  (exists n, l = LRelPush n) \/ (exists i, l = LRelCbWatch i).
+Proof. exact is_rel_spec. Qed.
+Print Assumptions c08_is_rel_spec.
+
+Theorem c08_enabled_rel_is_rel : forall s l, In l (enabled_rel s) -> is_rel l = true.
+Proof. exact enabled_rel_is_rel. Qed.
+Print Assumptions c08_enabled_rel_is_rel.
 
 (* with a concurrency limit of 0 a retained notification queues for a slot for ever *)
 Theorem c08_terminates_K0_refuted :
